@@ -297,12 +297,13 @@ class Incarnation:
         recipe = self.plan["models"][b["model"]]
         model, _, _ = self.get_model(b["model"])
         out = {}
+        agents = catalogue.expand_agents(recipe, b["agents"])
         for nm in b["key_order"]:
             if nm == "a":
                 grid = np.asarray(model.states["a"].to_jax())
-                arr = np.array([grid[ag["a"][1]] if ag["a"][0] == "n" else ag["a"][1] for ag in b["agents"]], dtype=np.float64)
+                arr = np.array([grid[ag["a"][1]] if ag["a"][0] == "n" else ag["a"][1] for ag in agents], dtype=np.float64)
             else:
-                arr = np.array([ag[nm] for ag in b["agents"]], dtype=np.dtype(b.get("int_dtype", "int64")))
+                arr = np.array([ag[nm] for ag in agents], dtype=np.dtype(b.get("int_dtype", "int64")))
             out[nm] = self.jnp.array(arr) if form == "jax" else arr
         assert set(out) == set(recipe["states_order"])
         return out
@@ -359,6 +360,9 @@ class Incarnation:
                 w.cancel_at = f["n"]
         self.event_log.append(("op_start", w.id, op["id"], op["kind"]))
         spy_from = len(self.spy_records)
+        import time as _time  # diagnostics only: never enters the event log or any decision
+
+        _t0 = _time.perf_counter()
         try:
             result = self._dispatch(op, rec)
             rec["status"] = "ok"
@@ -382,6 +386,7 @@ class Incarnation:
             sys.settrace(sched._global_trace)  # a raising trace function uninstalls itself
             w.cancel_at = None
             rec["events"] = w.op_events
+            rec["wall_diag_s"] = round(_time.perf_counter() - _t0, 3)
             rec["log_records"] = ctx["log_records"]
             rec["hits"] = dict(ctx["hits"])
             w.opctx = None
